@@ -162,6 +162,9 @@ func (w *World) visitInstr(fr *frame, instr ssa.Instruction) continuation {
 	case *ssa.DebugRef:
 
 	case *ssa.UnOp:
+		if w.h.SchedGlobals && instr.Op == token.MUL {
+			w.schedAtGlobal(instr.X, "global-load")
+		}
 		fr.env[instr] = w.unop(fr, instr, fr.get(instr.X))
 
 	case *ssa.BinOp:
@@ -225,6 +228,9 @@ func (w *World) visitInstr(fr *frame, instr ssa.Instruction) continuation {
 		w.chanSend(fr, instr.Pos(), fr.get(instr.Chan), fr.get(instr.X))
 
 	case *ssa.Store:
+		if w.h.SchedGlobals {
+			w.schedAtGlobal(instr.Addr, "global-store")
+		}
 		w.storeTo(fr, instr.Pos(), mustDeref(instr.Addr.Type()), fr.get(instr.Addr), fr.get(instr.Val))
 
 	case *ssa.If:
